@@ -284,7 +284,15 @@ func fuzzCheck(c Case, D thriftspec.Dialect) result {
 			Observed: s + " from " + trunc(evid.Hex(in)), Expected: thriftspec.Describe(ref), Class: "read-mismatch"}}
 	}
 	r := guard("Marshal of the decoded value", func() result { return checkMarshalValue(td, out.Elem(), c.P, D) })
-	r.excl = append(r.excl, excl...)
+	for _, cls := range excl { // each class once per case
+		dup := false
+		for _, x := range r.excl {
+			dup = dup || x == cls
+		}
+		if !dup {
+			r.excl = append(r.excl, cls)
+		}
+	}
 	if r.fail == nil {
 		r.note = "conformant"
 	}
